@@ -27,6 +27,10 @@ OB_MAT = "C02/cfg.CFG.materialize/lists-exactly-nonzero-strings"
 
 
 NEGLIGIBLE = 1e-10
+# The library sums infinitely many derivations (nullary / unary cycles) by a fixed-point iteration that stops at an ABSOLUTE tolerance
+# of 1e-12 per item (CFG.agenda(tol=1e-12)); a value of 1e-6 may therefore carry an absolute error of ~1e-12 (relative 1e-6).
+# Numbers are compared at relative 1e-7 plus this absolute slack (a thorough-tier false alarm of the earlier 1e-14: DESIGN 5).
+ABS_SLACK = 2e-11
 
 
 def _negligible(w):
@@ -121,7 +125,7 @@ def check_case(case):
                 if not common.in_semiring(v, sr):
                     viol(OB_EARLEY_T if pname == "earley" else ob, "result-not-in-semiring: " + type(v).__name__, x, v, want[x], pname)
                     continue
-                if not num_close(val(v), want[x]):
+                if not num_close(val(v), want[x], abs_=ABS_SLACK):
                     viol(ob, "wrong-value", x, val(v), want[x], pname)
         # materialize
         n = min(case["maxlen"], 3)
@@ -139,7 +143,7 @@ def check_case(case):
             extra = [k for k in got if k not in exp and not _negligible(got[k])]
             if missing or extra:
                 viol(OB_MAT, "wrong-support", None, sorted(got), sorted(exp), f"materialize({m})")
-            elif any(not num_close(got[k], exp[k]) for k in exp if k in got):
+            elif any(not num_close(got[k], exp[k], abs_=ABS_SLACK) for k in exp if k in got):
                 viol(OB_MAT, "wrong-value", None, got, exp, f"materialize({m})")
         if nontrivial:
             out["keys"].append(sig(case["name"], sr, case["rename"], case["heap"]))
